@@ -229,8 +229,8 @@ CHECKS["C09"] = dict(
 
 CHECKS["C01"] = dict(
     src="harness/C01_paths.cpp",
-    also=["C01B"],
-    cases=dict(quick=4500, thorough=60000),
+    also=["C01B", "C01P"],
+    cases=dict(quick=3600, thorough=50000),
     rule="(filled below)",
     technique="property-based testing: generated planning problems per planner, independent path re-validation oracle, one forked process per case",
     level_text="Every shipped geometric / multilevel planner that can be instantiated generically (47 registry entries; companion C01B adds VFRRT, "
@@ -483,6 +483,13 @@ CHECKS["C01B"] = dict(
     src="harness/C01B_bespoke.cpp",
     registered=False,
     cases=dict(quick=1200, thorough=16000),
+    rule="companion of C01", technique="", level_text="", level_note="",
+)
+CHECKS["C01P"] = dict(
+    src="harness/C01_paths.cpp",
+    cxxflags=["-DVF_C01P"],
+    registered=False,
+    cases=dict(quick=1600, thorough=24000),
     rule="companion of C01", technique="", level_text="", level_note="",
 )
 CHECKS["C19P"] = dict(
